@@ -2,14 +2,17 @@
 """tools/c29_measure.py [N] [--probe]  -- measure which (instruction kind, operator, type, constant-operand?) classes
 ppci's C front end emits per target and write them to vf/c29_classes.json (input of C29's generator restriction).
 
-Corpus: N (default 600) vf/gencc units (Hypothesis seeds 1..16, rewritten for ILP32 targets by cgstage.adapt_c) and
-every .c file of the repo that ppci compiles stand-alone; each compiled by c_to_ir for each of the five targets and
+Corpus: N (default 600) vf/gencc units (Hypothesis seeds 1..16, rewritten for ILP32 targets by cgstage.adapt_c; generated
+without floats for targets without float registers), every .c file of the repo that ppci compiles stand-alone, and an
+enumeration of one-function units (every cast pair, every operator x type x {var,const} operand form, compound
+assignment, comparison, memory access, pointer arithmetic, calls); each compiled by c_to_ir for each of the five targets and
 classified unoptimised and after optimize(level=2) (levels 1, 2 and s run the same pass list).  Modules that use a
 value type the target does not support are left out (counted).  With --probe the modules are also sent through
 ir_to_object and the exception buckets are printed (not stored).
 Run as: setarch -R env PYTHONHASHSEED=0 tools/c29_measure.py
 """
 import collections
+import contextlib
 import glob
 import io
 import json
@@ -30,14 +33,14 @@ N = int(ARGS[0]) if ARGS else 600
 
 
 def gen_programs(arg):
-    seed, n = arg
+    seed, n, floats = arg
     from hypothesis import HealthCheck, Phase, given, seed as hseed, settings
 
     progs = []
 
     @hseed(seed)
     @settings(max_examples=n, database=None, deadline=None, suppress_health_check=list(HealthCheck), phases=[Phase.generate])
-    @given(gencc.programs(gencc.Options()))
+    @given(gencc.programs(gencc.Options(floats=floats)))
     def t(p):
         progs.append(p["src"])
 
@@ -46,17 +49,65 @@ def gen_programs(arg):
 
 
 def repo_sources():
-    out = []
-    for path in sorted(glob.glob(os.path.join(REPO, "**", "*.c"), recursive=True)):
-        try:
-            out.append((os.path.relpath(path, REPO), open(path, encoding="utf-8", errors="replace").read()))
-        except OSError:
-            pass
-    return out
+    return [(os.path.relpath(path, REPO), None) for path in sorted(glob.glob(os.path.join(REPO, "**", "*.c"), recursive=True))]
+
+
+CT = ["char", "signed char", "unsigned char", "short", "unsigned short", "int", "unsigned int", "long", "unsigned long",
+      "long long", "unsigned long long", "float", "double"]
+
+
+def systematic_units():
+    """one tiny unit per (operator, type, operand form): what the C front end CAN emit, enumerated rather than sampled"""
+    units = []
+    for s in CT:
+        for d in CT:
+            units.append("%s f(%s a) { return (%s)a; }" % (d, s, d))
+            units.append("%s g; void f(%s *p) { g = (%s)*p; }" % (d, s, d))
+            units.append("%s f(%s a, %s b) { return a + b; }" % (d, s, d))
+    for t in CT:
+        fl = t in ("float", "double")
+        ops = ["+", "-", "*", "/"] + ([] if fl else ["%", "&", "|", "^", "<<", ">>"])
+        for op in ops:
+            units.append("%s f(%s a, %s b) { return a %s b; }" % (t, t, t, op))
+            units.append("%s f(%s a) { return a %s 3; }" % (t, t, op))
+            units.append("%s f(%s a) { return 3 %s a; }" % (t, t, op))
+            units.append("void f(%s *p, %s b) { *p %s= b; }" % (t, t, op))
+            units.append("void f(%s *p) { *p %s= 3; }" % (t, op))
+            units.append("%s f(%s a, %s b) { %s x = a; x %s= b; x %s= 5; return x; }" % (t, t, t, t, op, op))
+        for op in ["-", "!", "+"] + ([] if fl else ["~"]):
+            units.append("%s f(%s a) { return %sa; }" % (t, t, op))
+            units.append("void f(%s *p) { *p = %s*p; }" % (t, op))
+        for op in ["++", "--"]:
+            units.append("%s f(%s a) { a%s; %sa; return a; }" % (t, t, op, op))
+            units.append("void f(%s *p) { (*p)%s; }" % (t, op))
+        for cd in ["==", "!=", "<", ">", "<=", ">="]:
+            units.append("int f(%s a, %s b) { if (a %s b) return 1; return 0; }" % (t, t, cd))
+            units.append("int f(%s a) { if (a %s 3) return 1; return 0; }" % (t, cd))
+            units.append("int f(%s a) { if (3 %s a) return 1; return 0; }" % (t, cd))
+            units.append("int f(%s a, %s b) { return a %s b; }" % (t, t, cd))
+            units.append("%s f(%s a, %s b) { while (a %s b) { a = a + 1; } return a; }" % (t, t, t, cd))
+        units.append("%s g; %s f(void) { return g; }" % (t, t))
+        units.append("%s g; void f(%s a) { g = a; }" % (t, t))
+        units.append("%s g; void f(void) { g = 7; }" % t)
+        units.append("%s f(%s *p, int i) { return p[i]; }" % (t, t))
+        units.append("void f(%s *p, int i, %s v) { p[i] = v; }" % (t, t))
+        units.append("%s *f(%s *p, int i) { return p + i; }" % (t, t))
+        units.append("%s *f(%s *p) { return p - 2; }" % (t, t))
+        units.append("long f(%s *p, %s *q) { return p - q; }" % (t, t))
+        units.append("%s h(%s a); %s f(%s a) { return h(a); }" % (t, t, t, t))
+        units.append("%s f(%s a, int c) { return c ? a : 2; }" % (t, t))
+        units.append("struct S { %s a; %s b; }; struct S g; %s f(struct S *p) { g = *p; return p->b; }" % (t, t, t))
+        units.append("int f(%s a) { switch ((int)a) { case 1: return 4; case 2: return 5; default: return 6; } }" % t)
+    units.append("int f(int *p, int *q) { if (p == q) return 1; if (p < q) return 2; if (!p) return 3; return 0; }")
+    units.append("int h(int); int f(int a) { int (*fp)(int) = h; return fp(a); }")
+    units.append("struct S { int a; char b[20]; }; void h(struct S s); void f(struct S *p) { h(*p); }")
+    units.append("struct S { int a; char b[20]; }; struct S h(void); int f(void) { struct S s = h(); return s.a; }")
+    units.append("char *f(void) { return \"hello\"; }")
+    return units
 
 
 def work(arg):
-    kind, name, src = arg
+    kind, name, src = arg[:3]
     from ppci.api import c_to_ir, ir_to_object, optimize
     from ppci.lang.c import COptions
 
@@ -67,14 +118,21 @@ def work(arg):
         cls = res["classes"].setdefault(target, set())
         for level in ("0", "2"):
             try:
-                if kind == "gencc":
-                    m = c_to_ir(io.StringIO(cgstage.adapt_c(src, target)), target)
-                else:
-                    co = COptions()
-                    co.add_include_path(os.path.dirname(os.path.join(REPO, name)))
-                    co.add_include_path(os.path.join(REPO, "librt", "libc", "include"))
-                    m = c_to_ir(io.StringIO(src), target, coptions=co)
-                optimize(m, level=level)
+                with contextlib.redirect_stdout(io.StringIO()):
+                    if kind == "gencc":
+                        if not info["float_types"]:
+                            src = arg[3]  # the unit generated without floats
+                        m = c_to_ir(io.StringIO(cgstage.adapt_c(src, target)), target)
+                    elif kind == "systematic":
+                        if info["ptr_bits"] == 32 and "long long" in src:
+                            continue
+                        m = c_to_ir(io.StringIO(src), target)
+                    else:
+                        co = COptions()
+                        co.add_include_path(os.path.join(REPO, "librt", "libc", "include"))
+                        with open(os.path.join(REPO, name), encoding="utf-8", errors="replace") as fh:
+                            m = c_to_ir(fh, target, coptions=co)
+                    optimize(m, level=level)
             except Exception as e:
                 res["skipped"]["%s %s: front end/optimizer %s" % (kind, target, type(e).__name__)] += 1
                 continue
@@ -115,8 +173,12 @@ def selfcheck():
 def main():
     print("self-check: desc_classes == module_classes on %d generated modules" % selfcheck())
     with multiprocessing.get_context("fork").Pool(16) as pool:
-        progs = [p for ps in pool.map(gen_programs, [(s, (N + 15) // 16) for s in range(1, 17)]) for p in ps]
-        jobs = [("gencc", "g%d" % i, p) for i, p in enumerate(progs)] + [("repo", n, s) for n, s in repo_sources()]
+        progs = [p for ps in pool.map(gen_programs, [(s, (N + 15) // 16, True) for s in range(1, 17)]) for p in ps]
+        nofl = [p for ps in pool.map(gen_programs, [(s, (N + 15) // 16, False) for s in range(1, 17)]) for p in ps]
+        nofl = (nofl * 2)[: len(progs)]
+        syst = systematic_units()
+        jobs = [("gencc", "g%d" % i, p, q) for i, (p, q) in enumerate(zip(progs, nofl))] + [("repo", n, s) for n, s in repo_sources()]
+        jobs += [("systematic", "s%d" % i, u) for i, u in enumerate(syst)]
         results = pool.map(work, jobs, chunksize=4)
     classes = {t: set() for t in cgstage.TARGETS}
     skipped, used, buckets = collections.Counter(), collections.Counter(), collections.Counter()
@@ -130,7 +192,7 @@ def main():
     doc = {
         "what": "instruction classes emitted by ppci's C front end (+ optimize level 0 and 2) per target; see tools/c29_measure.py",
         "repo_commit": commit,
-        "corpus": {"gencc_units": len(progs), "repo_c_files": len(jobs) - len(progs), "modules_used": dict(sorted(used.items())), "left_out": dict(sorted(skipped.items()))},
+        "corpus": {"gencc_units": len(progs), "repo_c_files": len(jobs) - len(progs) - len(syst), "systematic_units": len(syst), "modules_used": dict(sorted(used.items())), "left_out": dict(sorted(skipped.items()))},
         "types": {t: cgstage.target_info(t) for t in cgstage.TARGETS},
         "classes": {t: sorted(classes[t]) for t in cgstage.TARGETS},
     }
